@@ -43,7 +43,7 @@ func sqlCondOps() (map[string]string, error) {
 	return res, nil
 }
 
-func selName(e ast.Expr) (string, bool) {
+func tqSelName(e ast.Expr) (string, bool) {
 	se, ok := e.(*ast.SelectorExpr)
 	if !ok {
 		return "", false
@@ -146,7 +146,7 @@ func init() {
 			if !ok || len(ret.Results) != 2 {
 				return "", fmt.Errorf("getComparisonFn: case %q does not return (fn, nil)", c.key)
 			}
-			n, ok := selName(ret.Results[0])
+			n, ok := tqSelName(ret.Results[0])
 			if !ok || ops[n] == "" {
 				return "", fmt.Errorf("getComparisonFn: case %q returns an unknown constructor", c.key)
 			}
@@ -178,7 +178,7 @@ func init() {
 			if !ok || len(as.Rhs) != 1 {
 				return "", fmt.Errorf("getTermNum: case %q is not an assignment", c.key)
 			}
-			n, ok := selName(as.Rhs[0])
+			n, ok := tqSelName(as.Rhs[0])
 			if !ok || ops[n] == "" {
 				return "", fmt.Errorf("getTermNum: case %q assigns an unknown constructor", c.key)
 			}
@@ -209,14 +209,14 @@ func init() {
 				return "", fmt.Errorf("getTermStr: case %q: no final return", c.key)
 			}
 			and, ok := ret.Results[0].(*ast.CallExpr)
-			if n, ok2 := selName(and.Fun); !ok || !ok2 || n != "And" || len(and.Args) != 2 {
+			if n, ok2 := tqSelName(and.Fun); !ok || !ok2 || n != "And" || len(and.Args) != 2 {
 				return "", fmt.Errorf("getTermStr: case %q does not return sql.And(key, value)", c.key)
 			}
 			vc, ok := and.Args[1].(*ast.CallExpr)
 			if !ok || len(vc.Args) != 2 {
 				return "", fmt.Errorf("getTermStr: case %q: value condition has an unexpected shape", c.key)
 			}
-			n, ok := selName(vc.Fun)
+			n, ok := tqSelName(vc.Fun)
 			if !ok || ops[n] == "" {
 				return "", fmt.Errorf("getTermStr: case %q: unknown constructor", c.key)
 			}
